@@ -31,6 +31,7 @@ func c08(p Params) func() {
 	dir := p.Get("dir", "in")
 	closer := p.Get("closer", "session")
 	yields := p.Int("yields", 1)
+	proto := p.Get("proto", "raw")
 	return func() {
 		begin()
 		a := world.NewPeer("json")
@@ -48,9 +49,18 @@ func c08(p Params) func() {
 			r := "B:" + *arg
 			return &r, nil
 		})
-		sa, sb, link := world.Connect(a, b, nil)
+		sa, sb, link := world.Connect(a, b, world.Proto(proto))
+		repliesOnWire := 0
 		link.A.OnWrite = func(c *vnet.Conn, data []byte) {
-			if f, _, err := world.ParseFrame(data); err == nil && f.Mtype == erpc.TypeReply {
+			// a protocol may write one frame in several pieces: count the complete REPLY frames in everything written so far
+			fs, _, _ := world.DecodeFrames(proto, append(append([]byte{}, c.Written...), data...))
+			n := 0
+			for _, f := range fs {
+				if f.Mtype == erpc.TypeReply {
+					n++
+				}
+			}
+			for ; repliesOnWire < n; repliesOnWire++ {
 				world.Event("A_reply_written")
 			}
 		}
@@ -113,7 +123,7 @@ func c08(p Params) func() {
 			st := cmd.Status()
 			// did this request reach the wire completely?
 			sent := false
-			frames, _, _ := world.ParseFrames(link.A.Written)
+			frames, _, _ := world.DecodeFrames(proto, link.A.Written)
 			for _, f := range frames {
 				if f.Mtype == erpc.TypeCall && f.Seq == cmd.Output().Seq() {
 					sent = true
